@@ -371,5 +371,13 @@ def rule_precision(ck):
                           what='forecast rates and observed counts')
 
 
+def rule_binning_shared(ck):
+    """the histogram and the space-magnitude counts place a magnitude where bin1d_vec places it: same kernel, same mode, and the values
+    handed over as they are stored (shared C02-D4.mag / .coord / .kernel / .sibling / .asstored)"""
+    from . import c02
+    ck.clause('D2 (shared C02-D4: the observed counts are binned by the kernel, in the stored type of the magnitudes)')
+    c02.rule_callsites(ck)
+
+
 RULES = [rule_kernel, rule_callsites, rule_normalisation, rule_public, rule_counts, rule_simulated_catalogs, rule_flatten_order, rule_own_magnitudes_shared,
-         rule_precision, rule_rates_view]
+         rule_precision, rule_rates_view, rule_binning_shared]
